@@ -28,8 +28,10 @@ class MpDm(Mps, Mpo):
     def from_mps(cls, mps: Mps):
         mpo = cls()
         mpo.model = mps.model
+        if mps.is_complex:
+            mpo.to_complex(inplace=True)
         for ms in mps:
-            mo = np.zeros(tuple([ms.shape[0]] + [ms.shape[1]] * 2 + [ms.shape[2]]))
+            mo = np.zeros(tuple([ms.shape[0]] + [ms.shape[1]] * 2 + [ms.shape[2]]), dtype=ms.array.dtype)
             for iaxis in range(ms.shape[1]):
                 mo[:, iaxis, iaxis, :] = ms[:, iaxis, :].array
             mpo.append(mo)
